@@ -128,63 +128,74 @@ fn read_one_shape_as<T: Read, S: ReadableShape>(
     Ok((hdr, shape))
 }
 
+/// Position of the source when it is not known (after a failed read or seek)
+const UNKNOWN_POSITION: u64 = u64::MAX;
+
 /// Struct that handle iteration over the shapes of a .shp file
 pub struct ShapeIterator<'a, T: Read, S: ReadableShape> {
     _shape: std::marker::PhantomData<S>,
     // From where we read the shapes
     source: &'a mut T,
     // Current position in bytes in the source.
-    current_pos: usize,
+    // It belongs to the reader, so that what the next call
+    // on the reader does is consistent with what this iterator consumed.
+    current_pos: &'a mut u64,
     // How many bytes the header said there are in
     // the file.
-    file_length: usize,
-    // Iterator over the shape indices, used to seek
+    file_length: u64,
+    // The shape indices, used to seek
     // to the start of a shape when reading
-    shapes_indices: Option<std::slice::Iter<'a, ShapeIndex>>,
+    shapes_indices: Option<&'a [ShapeIndex]>,
+    // Which index entry is the next to be read (belongs to the reader as well)
+    next_index: &'a mut usize,
 }
 
 impl<T: Read + Seek, S: ReadableShape> Iterator for ShapeIterator<'_, T, S> {
     type Item = Result<S, crate::Error>;
 
     fn next(&mut self) -> Option<Self::Item> {
-        if let Some(ref mut shapes_indices) = self.shapes_indices {
+        if let Some(shapes_indices) = self.shapes_indices {
             // When we have the `shx` file, it alone tells which shapes there are
             // and where: some shapes may not be stored sequentially and may
             // contain 'garbage' bytes between them
-            let start_pos = match shapes_indices.next()?.offset_in_bytes() {
+            let shape_index = shapes_indices.get(*self.next_index)?;
+            *self.next_index += 1;
+            let start_pos = match shape_index.offset_in_bytes() {
                 Ok(pos) => pos,
                 Err(err) => return Some(Err(err)),
             };
-            if start_pos != self.current_pos as u64 {
+            if start_pos != *self.current_pos {
                 if let Err(err) = self.source.seek(SeekFrom::Start(start_pos)) {
+                    *self.current_pos = UNKNOWN_POSITION;
                     return Some(Err(err.into()));
                 }
-                self.current_pos = start_pos as usize;
+                *self.current_pos = start_pos;
             }
-        } else if self.current_pos >= self.file_length {
+        } else if *self.current_pos >= self.file_length {
             return None;
         }
         let (hdr, shape) = match read_one_shape_as::<T, S>(self.source) {
             Err(e) => {
-                if self.shapes_indices.is_none() {
-                    // Where the next record starts is not known: stop here,
-                    // instead of returning the same error forever
-                    self.current_pos = self.file_length;
-                }
+                // Where the source is now is not known. Without an index this
+                // also ends the iteration, instead of returning the same error forever
+                *self.current_pos = UNKNOWN_POSITION;
                 return Some(Err(e));
             }
             Ok(hdr_and_shape) => hdr_and_shape,
         };
-        self.current_pos += record::RecordHeader::SIZE;
-        self.current_pos += hdr.record_size as usize * 2;
+        *self.current_pos += record::RecordHeader::SIZE as u64;
+        *self.current_pos += hdr.record_size as u64 * 2;
         Some(Ok(shape))
     }
 
     fn size_hint(&self) -> (usize, Option<usize>) {
-        self.shapes_indices
-            .as_ref()
-            .map(|s| s.size_hint())
-            .unwrap_or((0, None))
+        match self.shapes_indices {
+            Some(shapes_indices) => {
+                let remaining = shapes_indices.len().saturating_sub(*self.next_index);
+                (remaining, Some(remaining))
+            }
+            None => (0, None),
+        }
     }
 }
 
@@ -225,6 +236,10 @@ pub struct ShapeReader<T> {
     source: T,
     header: header::Header,
     shapes_index: Option<Vec<ShapeIndex>>,
+    // Position in bytes of the source
+    current_pos: u64,
+    // Which shape an iteration reads next (only used when we have the index)
+    next_index: usize,
 }
 
 impl<T: Read> ShapeReader<T> {
@@ -257,6 +272,8 @@ impl<T: Read> ShapeReader<T> {
             source,
             header,
             shapes_index: None,
+            current_pos: header::HEADER_SIZE as u64,
+            next_index: 0,
         })
     }
 
@@ -287,6 +304,8 @@ impl<T: Read> ShapeReader<T> {
             source,
             header,
             shapes_index,
+            current_pos: header::HEADER_SIZE as u64,
+            next_index: 0,
         })
     }
 
@@ -381,9 +400,10 @@ impl<T: Read + Seek> ShapeReader<T> {
         ShapeIterator {
             _shape: std::marker::PhantomData,
             source: &mut self.source,
-            current_pos: header::HEADER_SIZE as usize,
-            file_length: usize::try_from(self.header.file_length).unwrap_or(0) * 2,
-            shapes_indices: self.shapes_index.as_ref().map(|s| s.iter()),
+            current_pos: &mut self.current_pos,
+            file_length: u64::try_from(self.header.file_length).unwrap_or(0) * 2,
+            shapes_indices: self.shapes_index.as_deref(),
+            next_index: &mut self.next_index,
         }
     }
 
@@ -449,7 +469,11 @@ impl<T: Read + Seek> ShapeReader<T> {
                 return Some(Err(e));
             }
 
-            let (_, shape) = match read_one_shape_as::<T, S>(&mut self.source) {
+            let result = read_one_shape_as::<T, S>(&mut self.source);
+            // Whatever happened, the next iteration starts from the first shape
+            self.current_pos = UNKNOWN_POSITION;
+            self.next_index = 0;
+            let (_, shape) = match result {
                 Err(e) => return Some(Err(e)),
                 Ok(hdr_and_shape) => hdr_and_shape,
             };
@@ -460,6 +484,7 @@ impl<T: Read + Seek> ShapeReader<T> {
             {
                 return Some(Err(Error::IoError(e)));
             }
+            self.current_pos = header::HEADER_SIZE as u64;
             Some(Ok(shape))
         } else {
             Some(Err(Error::MissingIndexFile))
@@ -480,13 +505,14 @@ impl<T: Read + Seek> ShapeReader<T> {
     /// was not constructed with [ShapeReader::with_shx]
     pub fn seek(&mut self, index: usize) -> Result<(), Error> {
         if let Some(ref shapes_index) = self.shapes_index {
-            match shapes_index.get(index) {
-                Some(shape_idx) => {
-                    let offset = shape_idx.offset_in_bytes()?;
-                    self.source.seek(SeekFrom::Start(offset))
-                }
-                None => self.source.seek(SeekFrom::End(0)),
-            }?;
+            let seek_from = match shapes_index.get(index) {
+                Some(shape_idx) => SeekFrom::Start(shape_idx.offset_in_bytes()?),
+                None => SeekFrom::End(0),
+            };
+            // The next iteration starts from this shape
+            self.next_index = index.min(shapes_index.len());
+            self.current_pos = UNKNOWN_POSITION;
+            self.current_pos = self.source.seek(seek_from)?;
             Ok(())
         } else {
             Err(Error::MissingIndexFile)
